@@ -687,7 +687,25 @@ impl ReplicaProp {
                 // directed multi-message families (6% of the steps)
                 if self.mode != Mode::Flood && g.rng.gen_range(0..100) < 6 {
                     let hc_view = snap.high_commit_qc.as_ref().map(|q| q.view().number.0);
-                    if g.rng.gen_bool(0.6) {
+                    let ht_view = snap.high_timeout_qc.as_ref().map(|q| q.view.number.0);
+                    if cur >= 2 && ht_view == Some(cur - 1) && hc_view.is_none_or(|v| v + 2 < cur) && !g.certified.contains_key(&(cur - 2)) && g.rng.gen_bool(0.7) {
+                        // the replica entered this view on a timeout certificate; the view's leader assembled a DIFFERENT timeout
+                        // certificate for the same view, one of whose votes carries a commit certificate the replica has not
+                        // seen: it must be adopted although the timeout certificate itself brings nothing new
+                        out.count("family=richer_timeout_qc_for_passed_view");
+                        let h = g.rng.gen_range(1..4);
+                        let hq = Some(g.valid_cqc(cur - 2, base_n, h));
+                        let signers = g.quorum_set();
+                        let tq = atqc(n, aview(cur - 1), &[(ATVote { view: aview(cur - 1), hv: None, hq }, signers)]);
+                        let leader = g.leader(cur);
+                        if g.rng.gen_bool(0.6) {
+                            pending.push_back(json!({"op":"msg","from":leader,"sig_ok":true,"msg":{"newview":AJust::Timeout(tq)}}));
+                        } else {
+                            fresh += 1;
+                            if !payload_ok(fresh) { fresh += 1; }
+                            pending.push_back(json!({"op":"msg","from":leader,"sig_ok":true,"msg":{"proposal":{"payload":fresh,"just":AJust::Timeout(tq)}},"crash":Value::Null}));
+                        }
+                    } else if g.rng.gen_bool(0.6) {
                         // a quorum of votes of one kind for ONE view at or above the current one, from distinct signers: the
                         // replica assembles the certificate itself and must move to the view after the CERTIFICATE's view
                         let w_view = cur + *[0u64, 0, 1, 2, 7].choose(g.rng).unwrap();
@@ -703,6 +721,16 @@ impl ReplicaProp {
                             let hq = hc_view.filter(|v| g.certified.contains_key(v) && *v < w_view).map(|v| g.valid_cqc(v, 0, 0));
                             for i in signers {
                                 pending.push_back(json!({"op":"msg","from":i,"sig_ok":true,"msg":{"timeout":ATVote { view: aview(w_view), hv: None, hq: hq.clone() }}}));
+                            }
+                            // ... and then the next view's leader shows up with ANOTHER timeout certificate for the same view,
+                            // one that carries a commit certificate the replica has not seen (different timeout quorum)
+                            if w_view == cur && cur >= 1 && hc_view.is_none_or(|v| v + 1 < cur) && !g.certified.contains_key(&(cur - 1)) && g.rng.gen_bool(0.6) {
+                                out.count("family=richer_timeout_qc_for_passed_view");
+                                let h = g.rng.gen_range(1..4);
+                                let hq2 = Some(g.valid_cqc(cur - 1, base_n, h));
+                                let s2 = g.quorum_set();
+                                let tq = atqc(n, aview(cur), &[(ATVote { view: aview(cur), hv: None, hq: hq2 }, s2)]);
+                                pending.push_back(json!({"op":"msg","from":g.leader(cur + 1),"sig_ok":true,"msg":{"newview":AJust::Timeout(tq)}}));
                             }
                         }
                     } else if g.rng.gen_bool(0.4) {
